@@ -22,8 +22,50 @@ var c14Requests = map[string][]string{
 	"connect":   {},
 }
 
+// c14Canned: one well-formed request per command family member; the self-pair harness sends it on
+// two connections at once (with different keys/patterns), so per-command shared state in the framework
+// (caches, option tables, pooled buffers) is exercised for every registered command.
+var c14Canned = map[string][][]string{
+	"AUTH": {{"pw"}, {"pw"}}, "PING": {{}, {"x"}}, "ECHO": {{"a"}, {"b"}}, "SELECT": {{"1"}, {"2"}}, "QUIT": {{}, {}},
+	"CONFIG": {{"SET", "p", "1"}, {"GET", "p"}}, "DEL": {{"a"}, {"b", "c"}}, "EXPIRE": {{"a", "10"}, {"b", "20", "NX"}},
+	"EXPIREAT": {{"a", "4102444800"}, {"b", "4102444801"}}, "EXISTS": {{"a"}, {"b"}}, "KEYS": {{"a*"}, {"b?"}}, "TYPE": {{"a"}, {"b"}},
+	"RENAME": {{"a", "b"}, {"c", "d"}}, "RENAMENX": {{"a", "b"}, {"c", "d"}}, "TTL": {{"a"}, {"b"}},
+	"SCAN": {{"0", "MATCH", "a*", "COUNT", "5"}, {"0", "MATCH", "b?", "TYPE", "string"}},
+	"GET": {{"a"}, {"b"}}, "SET": {{"a", "1", "EX", "10"}, {"b", "2", "NX"}}, "SETEX": {{"a", "10", "v"}, {"b", "20", "w"}},
+	"GETSET": {{"a", "1"}, {"b", "2"}}, "MSET": {{"a", "1", "b", "2"}, {"c", "3"}}, "MSETNX": {{"a", "1"}, {"b", "2"}},
+	"MGET": {{"a", "b"}, {"c"}}, "SETNX": {{"a", "1"}, {"b", "2"}}, "HDEL": {{"h", "f"}, {"g", "e"}}, "HGET": {{"h", "f"}, {"g", "e"}},
+	"HGETALL": {{"h"}, {"g"}}, "HSET": {{"h", "f", "v"}, {"g", "e", "w"}}, "HSETNX": {{"h", "f", "v"}, {"g", "e", "w"}},
+	"HMSET": {{"h", "f", "v"}, {"g", "e", "w"}}, "HMGET": {{"h", "f"}, {"g", "e"}}, "LINDEX": {{"l", "0"}, {"m", "-1"}},
+	"LLEN": {{"l"}, {"m"}}, "LPOP": {{"l"}, {"m", "2"}}, "LPUSH": {{"l", "a"}, {"m", "b", "c"}}, "LPUSHX": {{"l", "a"}, {"m", "b"}},
+	"LRANGE": {{"l", "0", "-1"}, {"m", "1", "2"}}, "RPOP": {{"l"}, {"m", "2"}}, "RPUSH": {{"l", "a"}, {"m", "b"}}, "RPUSHX": {{"l", "a"}, {"m", "b"}},
+	"SADD": {{"s", "a"}, {"t", "b"}}, "SMEMBERS": {{"s"}, {"t"}}, "SREM": {{"s", "a"}, {"t", "b"}},
+	"ZADD": {{"z", "1", "a"}, {"y", "NX", "2", "b"}}, "ZINCRBY": {{"z", "1", "a"}, {"y", "2", "b"}},
+	"ZRANGE": {{"z", "0", "-1", "WITHSCORES"}, {"y", "(1", "5", "BYSCORE", "LIMIT", "0", "1"}}, "ZREVRANGE": {{"z", "0", "-1"}, {"y", "0", "1", "WITHSCORES"}},
+	"ZRANGEBYSCORE": {{"z", "0", "5"}, {"y", "(1", "+inf", "LIMIT", "0", "2"}}, "ZREVRANGEBYSCORE": {{"z", "5", "0"}, {"y", "+inf", "(1"}},
+	"ZREM": {{"z", "a"}, {"y", "b"}}, "ZSCORE": {{"z", "a"}, {"y", "b"}}, "APPEND": {{"a", "x"}, {"b", "y"}}, "DECR": {{"a"}, {"b"}},
+	"DECRBY": {{"a", "2"}, {"b", "3"}}, "GETRANGE": {{"a", "0", "-1"}, {"b", "1", "2"}}, "INCR": {{"a"}, {"b"}}, "INCRBY": {{"a", "2"}, {"b", "3"}},
+	"STRLEN": {{"a"}, {"b"}}, "SUBSTR": {{"a", "0", "-1"}, {"b", "1", "2"}}, "HEXISTS": {{"h", "f"}, {"g", "e"}}, "HKEYS": {{"h"}, {"g"}},
+	"HLEN": {{"h"}, {"g"}}, "HSTRLEN": {{"h", "f"}, {"g", "e"}}, "HVALS": {{"h"}, {"g"}}, "SCARD": {{"s"}, {"t"}}, "SISMEMBER": {{"s", "a"}, {"t", "b"}},
+	"ZCARD": {{"z"}, {"y"}},
+}
+
+// c14Request builds the i-th (0/1) canned request of a command; commands without an entry get one key argument.
+func c14Request(cmd string, i int) []byte {
+	args := []string{[]string{"k0", "k1"}[i]}
+	if c, ok := c14Canned[cmd]; ok {
+		args = c[i]
+	}
+	return vReqS(append([]string{cmd}, args...)...)
+}
+
 // c14Entry runs one API entry of the server (one per goroutine in the pair harness).
 func c14Entry(server *Server, name string) {
+	if len(name) > 4 && name[:4] == "cmd:" {
+		// "cmd:<i>:<NAME>": PING (so that the connection is fully set up), then the canned request
+		i := int(name[4] - '0')
+		server.receive(newVconn(append(vReqS("PING"), c14Request(name[6:], i)...)), nil)
+		return
+	}
 	if args, ok := c14Requests[name]; ok {
 		var in []byte
 		if len(args) > 0 {
@@ -42,6 +84,11 @@ func c14Entry(server *Server, name string) {
 	case "stop":
 		server.Stop()
 	case "restart":
+		server.Restart()
+		server.Stop()
+	case "rotate":
+		// password rotation: new requirepass, then Restart (Start installs / refreshes the authenticators)
+		server.SetRequirePass("pw3")
 		server.Restart()
 		server.Stop()
 	case "addauth":
